@@ -57,7 +57,7 @@ func checkC11(c *Ctx) {
 		c.Und("R11.1", name, "params", fn.Pos(), "unexpected parameter list")
 		return
 	}
-	recvN, entP, ceP := fn.Params[0].Name(), fn.Params[1], fn.Params[2]
+	recvN, entP, ceP := PN(fn.Params[0]), fn.Params[1], fn.Params[2]
 	// isFld: the rendering names the sampler's setting `f` - a field of the receiver or of a struct it holds by value
 	isFld := func(d, f string) bool {
 		return strings.HasPrefix(d, recvN+".") && strings.HasSuffix(d, "."+f) && !strings.ContainsAny(d, "()[")
@@ -463,13 +463,13 @@ func c11Shared(c *Ctx) {
 		return ""
 	}
 	got, okW := settings(w)
-	rn := w.Params[0].Name()
+	rn := PN(w.Params[0])
 	ok := okW && setting(got, rn, "counts") == rn+".counts" && setting(got, rn, "tick") == rn+".tick" && strings.HasPrefix(setting(got, rn, "first"), rn+".") && strings.HasSuffix(setting(got, rn, "first"), ".first") &&
-		strings.HasPrefix(setting(got, rn, "thereafter"), rn+".") && strings.HasSuffix(setting(got, rn, "thereafter"), ".thereafter") && setting(got, rn, "hook") == rn+".hook" && setting(got, rn, "Core") == "With("+rn+".Core, "+w.Params[1].Name()+")"
+		strings.HasPrefix(setting(got, rn, "thereafter"), rn+".") && strings.HasSuffix(setting(got, rn, "thereafter"), ".thereafter") && setting(got, rn, "hook") == rn+".hook" && setting(got, rn, "Core") == "With("+rn+".Core, "+PN(w.Params[1])+")"
 	c.Check(ok, "R11.3", w.String(), "shares-budget", w.Pos(), "a derived sampler points at the SAME counters and keeps tick/first/thereafter/hook (%v)", got)
 	got, okN := settings(nw)
 	fresh := func(d string) bool { return d == "<fresh>" }
-	ok = okN && fresh(setting(got, "", "counts")) && strings.HasSuffix(setting(got, "", "hook"), "nopSamplingHook") && setting(got, "", "first") == "conv[uint64]("+nw.Params[2].Name()+")" && setting(got, "", "thereafter") == "conv[uint64]("+nw.Params[3].Name()+")" && setting(got, "", "tick") == nw.Params[1].Name() && setting(got, "", "Core") == nw.Params[0].Name()
+	ok = okN && fresh(setting(got, "", "counts")) && strings.HasSuffix(setting(got, "", "hook"), "nopSamplingHook") && setting(got, "", "first") == "conv[uint64]("+PN(nw.Params[2])+")" && setting(got, "", "thereafter") == "conv[uint64]("+PN(nw.Params[3])+")" && setting(got, "", "tick") == PN(nw.Params[1]) && setting(got, "", "Core") == PN(nw.Params[0])
 	c.Check(ok, "R11.3", nw.String(), "constructor", nw.Pos(), "the constructor allocates one counter table, defaults the hook to the no-op and stores tick/first/thereafter as given (%v)", got)
 	c11CtorOK, c11CtorGot = ok, fmt.Sprint(got)
 }
@@ -632,15 +632,19 @@ func c11Window(c *Ctx) {
 				a := Args(x)
 				switch {
 				case IsCallTo(x, "(*sync/atomic.Int64).Load"):
-					if st.Desc(a[0]) == "c.resetAt" {
+					if st.Desc(a[0]) == PN(fn.Params[0])+".resetAt" {
 						return "load"
 					}
 					return "load(" + st.Desc(a[0]) + ")"
 				case IsCallTo(x, "(*sync/atomic.Int64).CompareAndSwap"):
 					okOld := traces(st, a[1], "(*sync/atomic.Int64).Load")
 					nw := st.Desc(a[2])
-					okNew := nw == "("+tn+" + Nanoseconds(tick))" || nw == "(Nanoseconds(tick) + "+tn+")"
-					if st.Desc(a[0]) == "c.resetAt" && okOld && okNew {
+					tk := "tick"
+					if len(fn.Params) >= 3 {
+						tk = PN(fn.Params[2])
+					}
+					okNew := nw == "("+tn+" + Nanoseconds("+tk+"))" || nw == "(Nanoseconds("+tk+") + "+tn+")"
+					if st.Desc(a[0]) == PN(fn.Params[0])+".resetAt" && okOld && okNew {
 						return "cas"
 					}
 					return "cas(" + st.Desc(a[0]) + "," + st.Desc(a[1]) + "," + nw + ")"
